@@ -1,11 +1,13 @@
 (* C02 — Entries read back with exactly the property values they were written with.
    Final statements; proofs in Dir/Values.v, Dir/Descr.v, Dir/Variants.v, Dir/Layout.v.
-   PARTIAL at file level (as C01): per-field, per-descriptor, per-store and variant-delimiting round
-   trips are theorems for all values; their composition into one statement about a whole directory
-   pack file is covered by running the extracted decoder [dp_dump] on every pack the creator writes. *)
+   Per-field, per-descriptor, per-store and variant-delimiting round trips are theorems for all values;
+   for schemas without variants they are composed (Dir/EntryStore.v): the descriptors the writer emits
+   parse to the layout, and EVERY entry of the data block reads back with exactly its values.  The
+   composition with arrays / variants and the placement of the blocks in a directory pack file are
+   covered by running the extracted decoder [dp_dump] on every pack the creator writes. *)
 From Coq Require Import List Arith NArith ZArith.
 From Jbk Require Import Base.ListExtra Base.Bytes Base.Parser Format.Structs Content.Pack
-  Dir.Layout Dir.Values Dir.Descr Dir.Variants.
+  Dir.Layout Dir.Values Dir.Descr Dir.Variants Dir.EntryStore.
 Import ListNotations.
 
 (* --- one property of one entry, wherever it sits in the entry ([pre] before, [post] after) --- *)
@@ -110,6 +112,24 @@ Theorem C02_index_window_inside :
   forall ih ly data j, (j < ix_count ih)%N -> index_get ih ly data j = entry_bytes ly data (ix_offset ih + j)%N.
 Proof. exact index_get_inside. Qed.
 
+(* --- whole entry stores (schemas without variants): descriptors, data block and reader composed --- *)
+Theorem C02_every_entry_reads_back :
+  forall store shape (rows : list (list wfield)) j row,
+    Forall (row_has_shape shape) rows -> nth_error rows j = Some row ->
+    let ly := flat_layout (N.of_nat (length rows)) shape in
+    let data := concat (map (fun r => concat (map ser_field r)) rows) in
+    exists e, entry_bytes ly data (N.of_nat j) = Some e /\ read_entry store ly e = (None, shown row).
+Proof. exact entry_store_roundtrip. Qed.
+
+Theorem C02_written_descriptors_parse_to_the_layout :
+  forall count shape r,
+    (count < 2 ^ 32)%N -> length shape <= 255 -> (N.of_nat (psize (map raw_of shape)) < 65536)%N ->
+    Forall wf_wprop shape -> Forall (fun w => match w with WVariantId _ => False | _ => True end) shape ->
+    p_layout (ser_flat_tail count (psize (map raw_of shape)) shape ++ r) = Ok (flat_layout count shape, r).
+Proof. exact flat_layout_parsed. Qed.
+
+Print Assumptions C02_every_entry_reads_back.
+Print Assumptions C02_written_descriptors_parse_to_the_layout.
 Print Assumptions C02_unsigned_field.
 Print Assumptions C02_signed_field.
 Print Assumptions C02_signed_field_too_narrow_is_altered.
